@@ -35,15 +35,56 @@ func raftLogger() log.Logger {
 	return log.NewNullLogger()
 }
 
-func BootRaft(s *Sim) (*RaftH, error) {
-	dir := mkTemp("raft")
-	conf := map[string]string{
+func raftConf(dir string) map[string]string {
+	return map[string]string{
 		"path":          dir,
 		"node_id":       "node1",
 		"trailing_logs": "10000",
 		// keep raft's own snapshotting out of the way
 		"snapshot_threshold": "1000000",
 	}
+}
+
+// Restart stops the node and brings it back on the same directory: either the
+// way seal / unseal does (cluster torn down and set up again on the same
+// backend object, the FSM stays open) or the way a process restart does (all
+// files closed, a new backend opened on the directory, the log replayed).
+func (h *RaftH) Restart(process bool) error {
+	h.gateOn.Store(false)
+	if err := h.B.TeardownCluster(nil); err != nil {
+		return fmt.Errorf("teardown: %w", err)
+	}
+	if process {
+		if err := h.B.Close(); err != nil {
+			return fmt.Errorf("close: %w", err)
+		}
+		braw, err := raft.NewRaftBackend(raftConf(h.Dir), raftLogger())
+		if err != nil {
+			return fmt.Errorf("reopen: %w", err)
+		}
+		h.B = braw.(*raft.RaftBackend)
+	}
+	if err := h.B.SetupCluster(context.Background(), raft.SetupOpts{StartAsLeader: true}); err != nil {
+		return fmt.Errorf("setup: %w", err)
+	}
+	h.B.DisableAutopilot()
+	// everything acknowledged before the restart is in the log: wait (in
+	// simulated time) until the state machine has caught up with it
+	for i := 0; i < 2000 && raft.VerifFSMIndex(raft.VerifFSM(h.B)) < raft.VerifRaft(h.B).LastIndex(); i++ {
+		time.Sleep(10 * time.Millisecond)
+	}
+	synctest.Wait()
+	h.B.SetFSMApplyCallback(func() {
+		if h.gateOn.Load() {
+			h.sim.Gate("fsm", "apply", false)
+		}
+	})
+	return nil
+}
+
+func BootRaft(s *Sim) (*RaftH, error) {
+	dir := mkTemp("raft")
+	conf := raftConf(dir)
 	braw, err := raft.NewRaftBackend(conf, raftLogger())
 	if err != nil {
 		os.RemoveAll(dir)
